@@ -590,11 +590,17 @@ def random_exe(rng, quick):
                 break
         return Exe(conf_of("chunk", "chunk_stream", mtu=mtu, align=align, default=bool(dflt)), ops, "random")
     if mode == "sync":
-        psize = rng.choice([4, 5, 8, 12, 188, 188, 196, 204]) if not quick else rng.choice([4, 5, 8, 12, 12, 188])
+        psize = rng.choice([4, 5, 8, 12, 188, 188, 196, 204]) if not quick else rng.choice([4, 5, 8, 12, 12, 188, 196, 204])
         nsync = rng.choice([2, 2, 3, 4])
         target = rng.below(psize * (nsync + 6)) if psize < 100 else rng.below(psize * (nsync + 4))
         data = rand_ts_stream(rng, psize, target) if target else b""
         data = data[:rng.below(len(data) + 1)] if rng.chance(1, 3) else data
+        if psize > 188 and rng.chance(1, 2):
+            # whole packets, then the beginning of one more that is at least as long as a 188-octet packet
+            # but shorter than the configured size (the sizes 196 / 204 carry a trailer)
+            data = rand_ts_stream(rng, psize, psize * (nsync + 1 + rng.below(3)), bad_ok=False)
+            data = data[:(len(data) // psize) * psize]
+            data += b"\x47" + rand_payload(rng, 187 + rng.below(psize - 188), 0)
         marks = sorted(set(rng.below(len(data) + 1) for _ in range(rng.choice([0, 0, 0, 1, 2]))))
         pipe = rng.choice(["ts_sync", "ts_sync", "ts_align"])
         runs = {}
